@@ -272,7 +272,10 @@ TraceNext ==
            src == IF rec.a[1] = "replay" THEN <<obs[rec.a[2]], aux[rec.a[2]]>> ELSE <<BlankObs, <<>>>>
        IN /\ IF m.notes = {} THEN CheckRecord(l, pre, m, rec, e0, src)
              ELSE IF Agrees(m, rec) THEN CheckRecord(l, pre, m, rec, e0, src) /\ PrintT(<<"NOTE", l, m.notes>>)
-             ELSE CheckRecord(l, pre, mI, rec, e0, src)
+             ELSE IF Agrees(mI, rec) THEN CheckRecord(l, pre, mI, rec, e0, src)
+             \* neither: judged against the code's known behaviour, so that the open finding does not show up as a
+             \* second, unrelated difference of this record
+             ELSE CheckRecord(l, pre, m, rec, e0, src)
           /\ aux' = [aux EXCEPT ![rec.i] = m.rounds]
           /\ obs' = [obs EXCEPT ![rec.i] = PostOf(rec)]
           /\ ent' = [ent EXCEPT ![rec.i] = BalancedRun(e0, rec.ev).ent]
